@@ -16,7 +16,7 @@ from collections import OrderedDict
 from copy import deepcopy
 from functools import partial
 from itertools import chain, takewhile
-from operator import attrgetter, eq, le
+from operator import attrgetter, eq, itemgetter, le
 
 # This needs to be in `globals()` for `eval` below
 from typing import *  # noqa: F401,F403
@@ -190,6 +190,21 @@ def _scan_phase(docstring, parse_original_whitespace=False, style=Style.rest):
     :rtype: ```Union[dict[str, str], list[tuple[bool, str]]]```
     """
     arg_tokens, return_tokens = map(attrgetter(style.name), (ARG_TOKENS, RETURN_TOKENS))
+    if style is Style.numpydoc:
+        # The numpydoc tokens span two lines ("Parameters\n----------"), so they are only found in
+        # a docstring without its source indentation (e.g., that of a method or class body)
+        lines: List[str] = docstring.split("\n")
+        indent: int = min(
+            (
+                len(line) - len(line.lstrip())
+                for line in lines[1:]
+                if line and not line.isspace()
+            ),
+            default=0,
+        )
+        docstring: str = "\n".join(
+            chain(lines[:1], map(itemgetter(slice(indent, None)), lines[1:]))
+        )
     return (
         _scan_phase_rest
         if style is Style.rest
